@@ -775,12 +775,57 @@ func runRecoverEndlog(c *Ctx, r *RuleRun) {
 			}
 			n++
 			why, ok := classify(iff.Cond, si == 0)
-			r.Check(ok, fn, "end of log", p.Pos(instrPos(iff)), why,
+			label := "end of log"
+			if ok {
+				label = "end of log: " + kindOf(why)
+			}
+			r.Check(ok, fn, label, p.Pos(instrPos(iff)), why,
 				"the record loop treats the rest of the log as absent on a condition that a complete, acknowledged record can satisfy (not a short read, not a length beyond the remaining bytes): every record from there on is dropped at recovery and the old log is then deleted")
 		}
 	}
 	if n == 0 {
 		r.Undecided(fn, "end of log", "", "no loop exit found")
+	}
+	// a torn tail ends the replay: an edge that establishes "torn" (short read, length beyond the rest) does not lead
+	// back into the loop
+	for _, b := range read.Blocks {
+		if !inL[b] || len(b.Instrs) == 0 || len(b.Succs) != 2 {
+			continue
+		}
+		iff, ok := b.Instrs[len(b.Instrs)-1].(*ssa.If)
+		if !ok {
+			continue
+		}
+		for si, q := range b.Succs {
+			why, ok := classify(iff.Cond, si == 0)
+			if !ok || kindOf(why) == "no bytes left" || kindOf(why) == "length not positive" {
+				continue
+			}
+			t := q
+			for i := 0; i < 4 && len(t.Succs) == 1 && len(t.Instrs) == 1; i++ {
+				t = t.Succs[0]
+			}
+			if inL[q] && inL[t] {
+				// a classifier call that is only the first half of a chain (err != nil && isTorn) keeps going: only
+				// flag when the edge re-enters the loop header without leaving
+				if reaches(t, b) {
+					r.Viol(fn, "torn tail ends the replay", p.Pos(instrPos(iff)), "after the record was classified as torn ("+why+") the loop goes on: the remaining bytes of the torn record are parsed as further records")
+				}
+			}
+		}
+	}
+}
+
+func kindOf(why string) string {
+	switch {
+	case strings.HasPrefix(why, "no bytes left"):
+		return "no bytes left"
+	case strings.HasPrefix(why, "record length not positive"):
+		return "length not positive"
+	case strings.HasPrefix(why, "record longer"):
+		return "length beyond the remaining bytes"
+	default:
+		return "torn-tail classification"
 	}
 }
 
